@@ -439,6 +439,31 @@ func cmdCheck(args []string) int {
 		}
 	}
 	jwg.Wait()
+	// a timeout is not a verdict: an obligation that ran out of time (a loaded machine is enough for that in the quick
+	// tier) gets one second attempt, alone, with six times the budget and every back end, before it is reported
+	if os.Getenv("VERIF_NO_RETRY") == "" {
+		for i, j := range jobs {
+			if j.o.Result == nil || j.o.Result.Status != "timeout" || j.o.Kind == "requires-sat" || j.o.Kind == "reach" {
+				continue
+			}
+			first := j.o.Result.Seconds
+			var res *SolveResult
+			for _, f := range files[i] {
+				r := Solve(f, to*6, true, false)
+				if res == nil || (res.Status == "unsat" && r.Status != "unsat") {
+					res = r
+				}
+				if r.Status != "unsat" {
+					break
+				}
+			}
+			if res != nil {
+				res.Seconds += first
+				res.Retried = true
+				j.o.Result = res
+			}
+		}
+	}
 
 	known := loadKnown(filepath.Join(*verif, "known_findings.txt"))
 	violations := 0
